@@ -465,10 +465,10 @@ pub fn spaces(tier: &str) -> Vec<Box<dyn Space>> {
         ));
     }
     // flattening helper over chained buffers
-    let maxlen = if thorough { 4 } else { 3 };
+    let maxlen = if thorough { 5 } else { 3 };
     let nl = list_count(menu::SELF_DELIMITING + 1, maxlen);
     v.push(space(
-        &format!("flattening-helper: chains<={} over 13-packet menu x 4 prior states", maxlen),
+        &format!("flattening-helper: chains<={} over 15-packet menu x 4 prior states", maxlen),
         nl * 4,
         move |i| {
             let seq = list_at(menu::SELF_DELIMITING + 1, maxlen, i % nl);
@@ -487,7 +487,7 @@ pub fn run(tier: &str) -> i32 {
         prop: "C13".into(),
         tier: tier.into(),
         level: "model_checking",
-        rule: "V5/V7: walking byte over a 3-record packet and every materialised record count; V9 and IPFIX: templates made of EVERY subset of the projected fields (source/destination address each in {absent, IPv4, IPv6, both}, ports, protocol, first, last, two MACs = 2048 subsets) in three orders with two unrelated fields, 1..=3 records, 1..=2 data sets; flattening helper over all chains of <=3 (thorough 4) packets of a 13-packet menu x 4 prior cache states. Oracle: projection computed from the reference decode (one flow per record, in order, member = decoded field, None iff the template lacks it). Distinct by the hash of the returned flows".into(),
+        rule: "V5/V7: walking byte over a 3-record packet and every materialised record count; V9 and IPFIX: templates made of EVERY subset of the projected fields (source/destination address each in {absent, IPv4, IPv6, both}, ports, protocol, first, last, two MACs = 2048 subsets) in three orders with two unrelated fields, 1..=3 records, 1..=2 data sets; flattening helper over all chains of <=3 (thorough 5) packets of a 15-packet menu x 4 prior cache states. Oracle: projection computed from the reference decode (one flow per record, in order, member = decoded field, None iff the template lacks it). Distinct by the hash of the returned flows".into(),
         bounds: json!({"subsets": 2048, "orders": 3, "records": "1..=3", "data_sets": "1..=2"}),
         assumptions: vec!["when a record carries both an IPv4 and an IPv6 address of the same direction the IPv4 one is projected".into(), "V5/V7 protocol name = the name the decoded record carries (its correctness is C03's subject)".into()],
         trusted_base: vec!["refmodel.rs".into(), "c13::project".into()],
